@@ -18,7 +18,12 @@ const HTTP_PREFIX: &str = "HTTP/1.1 200";
 
 pub fn health_once(port: u16, limit: Duration) -> Result<String, String> {
     let addr = srv_addr(port);
-    let mut s = TcpStream::connect_timeout(&addr, limit).map_err(|e| format!("connect: {}", e))?;
+    let s = TcpStream::connect_timeout(&addr, limit).map_err(|e| format!("connect: {}", e))?;
+    health_finish(s, limit)
+}
+
+/// the rest of a health check on a connection that is already established
+pub fn health_finish(mut s: TcpStream, limit: Duration) -> Result<String, String> {
     s.set_read_timeout(Some(limit)).unwrap();
     // every other check is a bare connect-and-read (what a TCP load-balancer probe does): the
     // server, with nothing unread on the connection, then closes with FIN and keeps the
@@ -241,7 +246,12 @@ pub fn observe(out: &mut Out, sp: &mut ServerProc, pk: &[u8], nworkers: usize, r
             let _ = burst_sock.send_to(&pkt, addr);
             pending.push((pkt, nonce, if j % 2 == 0 { Proto::Classic } else { Proto::Ietf }));
         }
-        let nconn = (2 * nworkers).clamp(2, 12);
+        // usually a handful; for one- and two-worker servers every other time far more than any
+        // per-wake-up quota a worker may have (all pending on one readiness event)
+        let nconn = if nworkers <= 2 && sp.cfg.port % 2 == 0 { 150 * nworkers } else { (2 * nworkers).clamp(2, 12) };
+        if nconn >= 150 {
+            out.obs("frozen_bursts_with_150_or_more_pending_health_connections", 1);
+        }
         // first in the accept queue: connections that the client resets before they are accepted
         // (writing the reply to them fails); the well-behaved ones queue up behind them
         for _ in 0..nworkers.min(4) {
@@ -254,9 +264,20 @@ pub fn observe(out: &mut Out, sp: &mut ServerProc, pk: &[u8], nworkers: usize, r
                 out.obs("reset_connections_queued", 1);
             }
         }
-        let hs: Vec<_> = (0..nconn).map(|_| std::thread::spawn(move || health_once(hp, Duration::from_secs(4)))).collect();
+        // all connections are established (they sit in the listen backlog) before the process is
+        // allowed to run again: one readiness event for all of them
+        let conns: Vec<_> = (0..nconn).map(|_| TcpStream::connect_timeout(&srv_addr(hp), Duration::from_secs(2))).collect();
         std::thread::sleep(Duration::from_millis(30));
         sp.signal(libc::SIGCONT);
+        let hs: Vec<_> = conns
+            .into_iter()
+            .map(|c| {
+                std::thread::spawn(move || match c {
+                    Ok(s) => health_finish(s, Duration::from_secs(4)),
+                    Err(e) => Err(format!("connect: {}", e)),
+                })
+            })
+            .collect();
         let mut bad = 0;
         let mut why = String::new();
         for h in hs {
@@ -567,6 +588,9 @@ pub fn run(ctx: &Ctx, out: &mut Out) {
     let sources = [false, true];
     let persist = ctx.scratch.join("persist");
     std::fs::create_dir_all(&persist).ok();
+    // the same directory reached through a symbolic link (a common way to point at a data volume)
+    let persist_link = ctx.scratch.join("persist-link");
+    let _ = std::os::unix::fs::symlink(&persist, &persist_link);
     let mut grid: Vec<SrvCfg> = Vec::new();
     if ctx.thorough {
         // full grid with num_workers 1..=16
@@ -586,7 +610,7 @@ pub fn run(ctx: &Ctx, out: &mut Out) {
                                 c.status_interval = Some(si);
                                 if st {
                                     c.client_stats = Some("on".into());
-                                    c.persistence_directory = Some(persist.clone());
+                                    c.persistence_directory = Some(if grid.len() % 3 == 1 && persist_link.exists() { persist_link.clone() } else { persist.clone() });
                                 }
                                 c.via_env = env;
                                 grid.push(c);
@@ -613,7 +637,7 @@ pub fn run(ctx: &Ctx, out: &mut Out) {
                     c.status_interval = Some(intervals[(k / 3) % 3]);
                     if stats[(k / 2) % 2] {
                         c.client_stats = Some("on".into());
-                        c.persistence_directory = Some(persist.clone());
+                        c.persistence_directory = Some(if k % 4 >= 2 && persist_link.exists() { persist_link.clone() } else { persist.clone() });
                     }
                     c.via_env = env;
                     grid.push(c);
